@@ -22,6 +22,7 @@
     `Matrix.Inv`); it is written as truncated subtraction.
 -/
 import EasyMl.Model.Matrix
+import EasyMl.Model.Tensor
 
 namespace EasyMl
 
@@ -402,6 +403,30 @@ def eqP [BEq α] (a b : Matrix α) : Bool :=
   if a.rows != b.rows then false
   else if a.columns != b.columns then false
   else (a.data.zip b.data).all fun p => p.1 == p.2
+
+/-! ### conversion to a tensor, writes through `MatrixMut` (mod.rs:1004-1016, 1560-1575; traits.rs:179-187) -/
+
+/-- `TryFrom<(Matrix<T>, [Dimension; 2])> for Tensor<T, 2>` / `into_tensor`: the shape
+    `[(row_name, rows), (column_name, columns)]` is checked (`InvalidShapeError::is_valid`: names
+    differ, no zero length), then `Tensor::from(shape, data)`, which panics when the element count
+    does not match.  `.ok none` is the `Err` result. -/
+def intoTensorRows {ν : Type} [DecidableEq ν] (m : Matrix α) (rowName columnName : ν) :
+    Outcome (Option (Tensor ν α)) :=
+  let shape : Shape ν := [(rowName, m.rows), (columnName, m.columns)]
+  if hasDuplicates (shape.map (·.1)) || shape.any (·.2 == 0) then .ok none
+  else
+    match Tensor.tryFrom shape m.data with
+    | some t => .ok (some t)
+    | none => .panic .explicit
+
+/-- writing through `MatrixMut::try_get_reference_mut`: `none` outside the matrix, never a panic
+    for a storage that has the element -/
+def trySet (m : Matrix α) (row column : Nat) (value : α) : Option (Matrix α) :=
+  if row < m.rows ∧ column < m.columns then
+    if m.getIndex row column < m.data.length then
+      some { m with data := m.data.set (m.getIndex row column) value }
+    else none
+  else none
 
 /-! ### operations as data, histories -/
 
